@@ -305,6 +305,14 @@ func (t *Collection) EvictSomeItems() (numEvicted uint64) {
 	if t.store.readOnly {
 		return 0
 	}
+	// Only nodes that are in memory can hold cached items, so the walk never
+	// loads a node from the file (a failing read would go unreported here).
+	rnl := t.rootAddRef()
+	rootCached := rnl.root.Node() != nil
+	t.rootDecRef(rnl)
+	if !rootCached {
+		return 0
+	}
 	i, err := t.store.walk(t, false, func(n *node) (*nodeLoc, bool) {
 		if j := n.Evict(); j != nil {
 			t.store.ItemDecRef(t, j)
@@ -314,7 +322,7 @@ func (t *Collection) EvictSomeItems() (numEvicted uint64) {
 		if (rand.Int() & 0x01) == 0x01 {
 			next = &n.right
 		}
-		if next.isEmpty() {
+		if next.isEmpty() || next.Node() == nil {
 			return nil, false
 		}
 		return next, true
